@@ -1,4 +1,5 @@
 import Exetera.Model.Basic
+import Exetera.Spec.Spans
 /-!
   Specification of C07: a group-by result has one row per distinct key tuple, in ascending key order, and the value of
   a row is the aggregate of the target values of the input rows carrying that key, taken in original row order.
@@ -39,6 +40,15 @@ def IsGroupBy {V} (rows : List (List Int)) (tgt : List V) (agg : List V → Opti
 /-- group-by count: the number of rows carrying each key -/
 def IsGroupCount (rows outKeys : List (List Int)) (counts : List Int) : Prop :=
   DistinctAscending rows outKeys ∧ counts = outKeys.map (fun k => ((rows.count k : Nat) : Int))
+
+/-- the smallest / largest string of a group in bytewise lexicographic order (`lexLt`, a proper prefix is smaller) -/
+def lexMin? : List (List Nat) → Option (List Nat)
+  | [] => none
+  | x :: xs => some (xs.foldl (fun m y => if lexLt y m then y else m) x)
+
+def lexMax? : List (List Nat) → Option (List Nat)
+  | [] => none
+  | x :: xs => some (xs.foldl (fun m y => if lexLt m y then y else m) x)
 
 /-- non-decreasing rows -/
 def RowsSorted (rows : List (List Int)) : Prop := rows.Pairwise (fun a b => tupleLt b a = false)
